@@ -398,6 +398,17 @@ class OrderedMultiDict(dict):
             return super_self.pop(k)
         return super_self.pop(k, default)
 
+    def popitem(self):
+        """Remove all values under the most-recently inserted key,
+        returning a ``(key, value)`` pair with the most-recently
+        inserted value. Raises :exc:`KeyError` if the dictionary is
+        empty.
+        """
+        if not self:
+            raise KeyError('popitem(): %s is empty' % self.__class__.__name__)
+        k = self.root[PREV][KEY]
+        return k, self.pop(k)
+
     def poplast(self, k=_MISSING, default=_MISSING):
         """Remove and return the most-recently inserted value under the key
         *k*, or the most-recently inserted key if *k* is not
